@@ -50,6 +50,7 @@ MCObj4 == [ a    |-> V("A", <<"A">>, {"x", "y"}, "variant"),
             at   |-> V("AT", <<"A", "T">>, {"x"}, "variant"),         \* dashed top-level UID, childless
             b    |-> V("B", <<"B">>, {"x"}, "variant"),
             pab  |-> V("AB", <<"AB">>, {"x"}, "variant"),
+            atp  |-> V("AT", <<"AT">>, {"x"}, "variant"),             \* plain top-level variant with the ID of the dashed one (at)
             abc  |-> V("C", <<"A", "B", "C">>, {"x"}, "optional"),    \* two children of a variant that is itself a child:
             aba  |-> V("A", <<"A", "B", "A">>, {"x"}, "addon") ]      \*   added in either order, listed by UID
 =============================================================================
